@@ -462,23 +462,38 @@ package align
 //@ pure func ucnt(a *align, c int, x int) int = old(upcnt(a, c, x, nrows(a)))
 //@ pure func sitemax(a *align, out []uint8, occur []int, s int, ig bool, in bool) bool = (forall k :: 0 <= k && k < 256 && ucnt(a, s, k) > 0 ==> excl(a, ig, in, k)) ? (nrows(a) > 0 ==> out[s] == up8(old(cell(a, 0, s))) && occur[s] == nrows(a)) : (!excl(a, ig, in, out[s]) && occur[s] == ucnt(a, s, out[s]) && occur[s] > 0 && (forall k :: 0 <= k && k < 256 && !excl(a, ig, in, k) ==> ucnt(a, s, k) <= occur[s] && (ucnt(a, s, k) == occur[s] ==> out[s] <= k)))
 
+// number of rows among the first n whose case-folded residue in column s is not excluded by ignore-gaps / ignore-N-or-X
+//@ pure func c12b_mtot(a *align, ig bool, in bool, s int, n int) int = (n <= 0 ? 0 : c12b_mtot(a, ig, in, s, n-1) + (excl(a, ig, in, up8(cell(a, n-1, s))) ? 0 : 1))
+// number of rows among the first n whose case-folded residue in column s IS excluded ('-', the wildcard and its lower case are three different codes)
+//@ pure func c12b_exn(a *align, ig bool, in bool, s int, n int) int = (ig ? upcnt(a, s, '-', n) : 0) + (in ? upcnt(a, s, wildcard(a), n) + upcnt(a, s, low8(wildcard(a)), n) : 0)
+// occur[s] alone: the number of rows when every character present is excluded, otherwise the largest count of a non-excluded case-folded character
+//@ pure func occok(a *align, occur []int, s int, ig bool, in bool) bool = (forall k :: 0 <= k && k < 256 && ucnt(a, s, k) > 0 ==> excl(a, ig, in, k)) ? (nrows(a) > 0 ==> occur[s] == nrows(a)) : (occur[s] > 0 && (exists x :: 0 <= x && x < 256 && !excl(a, ig, in, x) && ucnt(a, s, x) == occur[s]) && (forall k :: 0 <= k && k < 256 && !excl(a, ig, in, k) ==> ucnt(a, s, k) <= occur[s]))
+
 //@ func (*align).MaxCharStats
 //@   props C14 C12 C19
 //@   requires wfa(a)
 //@   ensures len(out) == (a.length < 0 ? 0 : a.length) && len(occur) == len(out) && len(total) == len(out) && fresh(out) && fresh(occur) && fresh(total)
 //@   ensures forall s :: 0 <= s && s < a.length ==> sitemax(a, out, occur, s, ignoreGaps, ignoreNs)
+// (C12) occur[] without reference to out[]; the three results do not share storage
+//@   ensures forall s :: 0 <= s && s < a.length ==> occok(a, occur, s, ignoreGaps, ignoreNs)
+//@   ensures base(out) != base(occur) && base(occur) != base(total)
+//@   ensures forall s :: 0 <= s && s < a.length ==> total[s] == old(c12b_mtot(a, ignoreGaps, ignoreNs, s, nrows(a)))
 //@   modifies nothing
 //@   maypanic
 //@   loop 1
 //@     invariant 0 <= site && len(out) == a.length && len(occur) == a.length && len(total) == a.length && fresh(out) && fresh(occur) && fresh(total) && base(out) != base(occur) && base(occur) != base(total)
 //@     invariant all == wildcard(a) && allc == low8(wildcard(a))
 //@     invariant forall s :: 0 <= s && s < site ==> sitemax(a, out, occur, s, ignoreGaps, ignoreNs)
+//@     invariant forall s :: 0 <= s && s < site ==> total[s] == old(c12b_mtot(a, ignoreGaps, ignoreNs, s, nrows(a)))
+//@     invariant forall s :: site <= s && s < a.length ==> total[s] == 0
 //@     decreases a.length - site
 //@   loop 2
 //@     modifies out[site], occur[site], map(mapstats)
 //@     invariant 0 <= site && site < a.length && mapstats != nil && fresh(mapstats) && max == 0
 //@     invariant forall x :: 0 <= x && x < 256 ==> mapstats[x] == old(upcnt(a, site, x, $i)) && has(mapstats, x) == (old(upcnt(a, site, x, $i)) > 0) && old(upcnt(a, site, x, $i)) >= 0
 //@     invariant $i > 0 ==> out[site] == up8(old(cell(a, 0, site))) && occur[site] == nrows(a)
+//@     invariant msum(mapstats) == $i && len(total) == a.length && (forall s :: site <= s && s < a.length ==> total[s] == 0)
+//@     invariant old(c12b_mtot(a, ignoreGaps, ignoreNs, site, $i)) + old(c12b_exn(a, ignoreGaps, ignoreNs, site, $i)) == $i
 //@     decreases nrows(a) - $i
 //@   loop 3
 //@     modifies out[site], occur[site], total[site]
@@ -488,6 +503,9 @@ package align
 //@     invariant max > 0 ==> visited(out[site]) && !excl(a, ignoreGaps, ignoreNs, out[site]) && occur[site] == max && max == ucnt(a, site, out[site])
 //@     invariant max > 0 ==> forall k :: 0 <= k && k < 256 && visited(k) && !excl(a, ignoreGaps, ignoreNs, k) ==> ucnt(a, site, k) <= max && (ucnt(a, site, k) == max ==> out[site] <= k)
 //@     invariant forall k :: visited(k) ==> has(mapstats, k)
+//@     invariant len(total) == a.length && (forall s :: site < s && s < a.length ==> total[s] == 0)
+//@     invariant msum(mapstats) == nrows(a) && old(c12b_mtot(a, ignoreGaps, ignoreNs, site, nrows(a))) + old(c12b_exn(a, ignoreGaps, ignoreNs, site, nrows(a))) == nrows(a)
+//@     invariant total[site] + (ignoreGaps && visited('-') ? ucnt(a, site, '-') : 0) + (ignoreNs && visited(wildcard(a)) ? ucnt(a, site, wildcard(a)) : 0) + (ignoreNs && visited(low8(wildcard(a))) ? ucnt(a, site, low8(wildcard(a))) : 0) == itersum()
 
 // Transpose: row `site` of the result is column `site` of the input (named by its decimal index)
 //@ func (*align).Transpose
